@@ -49,6 +49,9 @@ def translate_ast(fun, types: List = [], defs: List[LogicFun] = []) -> LogicFun:
         s_exps, env = translate_statement(stmt, env, ret_.ttype)
         exps.append(s_exps)
 
+    if "_ret" not in env:
+        raise exceptions.NoReturnTypeException()
+
     exps_flat = flatten(exps)
     exps_simpl = list(map(lambda e: simplify_logic(e, form="cnf"), exps_flat))
 
